@@ -35,7 +35,8 @@ Definition out_fields : list string :=
   ["out.err"; "out.version"; "out.cipher"; "out.mac"; "out.seq"; "out.scratchBuf";
    "out.nextCipher"; "out.nextMac"; "out.trafficSecret";
    "sendBuf"; "buffering"; "bytesSent"; "packetsSent"; "tmp";
-   "closeNotifyErr"; "closeNotifySent"].
+   "closeNotifyErr"; "closeNotifySent";
+   "@writeRecord"].   (* event marker written by the summariser at every writeRecordLocked *)
 Definition const_after_handshake : list string :=
   ["vers"; "haveVers"; "didResume"; "cipherSuite"; "ocspResponse"; "scts";
    "peerCertificates"; "verifiedChains"; "serverName"; "secureRenegotiation"; "ekm";
@@ -78,6 +79,34 @@ Definition has_reset_path : bool := existsb (fun p => negb (no_reset p)) all_pat
 Definition has_init_path : bool :=
   existsb (fun p => existsb (fun a => match a with AssertP PInit => true | _ => false end) p) all_paths.
 
+(* Same-critical-section obligation (TLS 1.3 key update): once the handshake is
+   complete, the write traffic secret is only replaced in a critical section of
+   c.out in which a record (the KeyUpdate message) has been written before -
+   sending the KeyUpdate and switching the key are one step for every other
+   holder of c.out.  [rec] = a record was written since c.out was last taken. *)
+Fixpoint key_switch_atomic (h : list lock) (k : know) (rec : bool) (p : xprog) : bool :=
+  match p with
+  | [] => true
+  | a :: r =>
+      let rec' :=
+        match a with
+        | B (Acquire "out") | B (Release "out") => false
+        | B (Write "@writeRecord") => true
+        | _ => rec
+        end in
+      (match a with
+       | B (Write "out.trafficSecret") => if know_eqb k KDone then rec && mem_inb "out" h else true
+       | _ => true
+       end) && key_switch_atomic (xheld_after h a) (know_after hs h k a) rec' r
+  end.
+
+Definition writes_out_secret (p : xprog) : bool :=
+  existsb (fun a => match a with B (Write "out.trafficSecret") => true | _ => false end) p.
+
+Definition check_keyupdate : bool :=
+  forallb (key_switch_atomic [] KUnknown false) all_paths
+  && existsb writes_out_secret all_paths.
+
 (* data races: every path that does not renegotiate *)
 Definition check_races : bool := forallb (xdisc_from hs pol [] KUnknown) race_paths.
 (* lock order: every path *)
@@ -94,4 +123,4 @@ Definition check_rest : bool :=
   && forallb has_entry ["Read"; "Write"; "Handshake"; "ConnectionState"; "SetDeadline"; "CloseWrite"; "Close"]
   && has_reset_path && has_init_path.
 
-Definition summary_ok : bool := check_races && check_order && check_rest.
+Definition summary_ok : bool := check_races && check_order && check_keyupdate && check_rest.
